@@ -722,7 +722,7 @@ fn run_case(case: &LbCase, out: &mut Outcome, want_trace: bool) {
     // oracles
     for c in &calls {
         if let CallResult::Panicked(m) = &c.result {
-            out.violate(&["C07", "C20"], "linebuf.call-panicked", format!("a call panicked: {m}"));
+            out.violate(&["C20"], "linebuf.call-panicked", format!("a call panicked: {m}"));
             return;
         }
     }
